@@ -198,9 +198,17 @@ def write_evidence(prop, tier, level, coverage, assumptions, wall, violations, e
     return p
 
 
+_cleaned = set()
+
+
 def write_replay(prop, name, obj):
     d = os.path.join(VERIF, "replays", "found")
     os.makedirs(d, exist_ok=True)
+    if prop not in _cleaned:   # the directory reflects the last run of each property
+        _cleaned.add(prop)
+        for f in os.listdir(d):
+            if f.startswith(prop + "-"):
+                os.remove(os.path.join(d, f))
     p = os.path.join(d, "%s-%s.json" % (prop, name))
     with open(p, "w") as f:
         json.dump(obj, f, indent=1, default=str)
